@@ -59,6 +59,7 @@ type Value struct {
 	LV  *LValue  // for pointers produced by Alloc/FieldAddr/IndexAddr
 	Tup []*Value // tuples
 	Fn  *FuncVal // statically known function value
+	Dyn types.Type // interface values built by MakeInterface: the statically known dynamic type
 	// spec-only kinds
 	SetElem string // non-empty: this is a set value; L[0] is (Array <SetElem> Bool)
 	MapVal  string // non-empty: this is a ghost map value; L[0] is (Array K <MapVal>)
@@ -506,4 +507,9 @@ func sortedKeys[V any](m map[string]V) []string {
 	}
 	sort.Strings(ks)
 	return ks
+}
+
+func isByteType(t types.Type) bool {
+	b, ok := types.Unalias(t).Underlying().(*types.Basic)
+	return ok && (b.Kind() == types.Uint8)
 }
